@@ -84,6 +84,16 @@ def cases(rng, tier):
     for i in range(60 if tier == "quick" else 400):
         s = rng.choice(["EKEKEKRDQGSA", "EKEKGGEKRDGG", "KEKEGGDRKEAG", "EKEKAGSGDRDR"])
         yield Case(["wlrun %s 2 0 1 %d 4/5 251/1000 %d 75 -" % (s, rng.choice([35, 35, 5, 7]), rng.randint(0, 10 ** 6))], {"kind": "exact-flatness-ties-short"})
+    # a convergence threshold the initial f = e already meets (no step may be counted), and thresholds just below e (one iteration)
+    for i in range(6 if tier == "quick" else 30):
+        s = rng.choice(["EKEKEKRDQGSA", "EKEKGGEKRDGG", "KEKEGGDRKE"])
+        conv = [Fraction(1001, 1000), Fraction(2), Fraction(3), Fraction(11, 10), Fraction(999, 1000), Fraction(3, 4)][i % 6]
+        yield Case(["wlrun %s %d 0 1 %d 1/4 %s %d 400 -" % (s, rng.choice([2, 3, 4]), rng.choice([5, 30]), conv, rng.randint(0, 10 ** 6))], {"kind": "threshold-at-or-above-initial-f"})
+    # flatness criterion 0 (fixed-length stages) with more bins than steps between checks: some bin is still empty at a scheduled check
+    for i in range(6 if tier == "quick" else 30):
+        s = rng.choice(["EKEKEKRDQGSA", "EKEKGGEKRDGG", "KEKEGGDRKEAG", "EKEKAGSGDRDR"])
+        nb = rng.choice([3, 5, 6])
+        yield Case(["wlrun %s %d 0 1 %d 0 %s %d 300 -" % (s, nb, rng.randint(1, nb - 1), rng.choice(["126/1000", "251/1000"]), rng.randint(0, 10 ** 6))], {"kind": "criterion-zero-empty-bins"})
     # the SECOND run() on one machine obeys the same rules from the same initial state
     for i in range(3 if tier == "quick" else 12):
         s = rng.choice(["EKEKEKRDQGSA", "EKEKGGEKRDGG", "KEKEGGDRKE"])
@@ -159,6 +169,8 @@ def judge(case, reals, gens, specs):
         lnf = 2.0 ** (-lnf_exp)
         if abs(st["f"] - math.exp(lnf)) > 1e-9:
             bad("step %d: f=%r but sqrt schedule gives %r" % (k, st["f"], math.exp(lnf)))
+        if st["f"] <= cfg["convergence"] * (1 - 1e-12):
+            bad("step %d was taken although f=%r is already at most the convergence threshold %r" % (k, st["f"], cfg["convergence"]))
         if sorted(st["nseq"]) != srt:
             bad("step %d: proposal %s is not a rearrangement of the input" % (k, st["nseq"]))
         kq = core.parse_rat(kap[st["nseq"]].split(" ")[1])
@@ -206,7 +218,7 @@ def judge(case, reals, gens, specs):
             crit = Fraction(tk[6])
             flat = tot > 0 and len(hl) == cfg["ntarget"] and all(Fraction(h) * len(hl) >= crit * tot for h in hl)
             did = st["niter_after"] == niter + 1
-            tie = tot > 0 and any(Fraction(h) * len(hl) == crit * tot for h in hl)
+            tie = tot > 0 and any(h > 0 and Fraction(h) * len(hl) == crit * tot for h in hl)      # (0 / mean is exactly 0.0: no rounding there)
             mean_q = Fraction(tot, len(hl)) if hl else Fraction(0)
             if tie and (mean_q.denominator & (mean_q.denominator - 1)) != 0:
                 # a bin sits EXACTLY on the criterion and the mean is not a binary fraction: the float quotient H/mean may fall on either side
